@@ -444,12 +444,18 @@ def run(ctx: Ctx) -> None:
                             "nothing is stored for it and the pipeline's signature ignores its code (no error names the module)"], "untracked-nested",
                             what="a nested keep that the analysis did not register is evaluated untracked instead of refused")
     rep.floor("C14.R14", n14, 1)
+    rep.rule("C14.R17", "every reachable tracked variable of an accepted module influences the signature, however it is referred to: the variable visitor handles attribute "
+                        "references (a variable read through its module)")
+    attribute_refs_tracked(ctx, "C14.R17")
+    rep.rule("C14.R18", "every reachable function of an accepted module influences the signature: the class inspectors follow the base classes")
+    n18 = base_classes_tracked(ctx, "C14.R18")
+    rep.floor("C14.R18", n18, 1)
     from .common import refusal_live
     rep.rule("C14.R15", "a callable of a non-accepted module handed to dds.keep / dds.eval is refused whether it is a function or a class: in both entry functions of the analysis "
                         "the resolution of the call tree's paths (the step that raises 'module not accepted') is live code")
     n15 = refusal_live(ctx, "C14.R15", "dds.keep('/model', Model) with the class Model defined in a module that was never accepted is introspected, evaluated and committed (its source is "
                                        "hashed into the signature: edits of a non-accepted module move a signature) where a function of the same module is refused")
-    rep.floor("C14.R15", n15, 2)
+    rep.floor("C14.R15", n15, 3)
     from .c02 import exempt_rule
     rep.rule("C14.R16", "as C02.R1(ext_dep): the objects of non-accepted modules that an accepted function uses are recorded by the canonical path the name is bound to - exactly the "
                         "dependencies without a value signature reach the `ext_dep_` entries: re-pointing an import of the accepted module (`from ext.v1 import scale` -> `ext.v2`) "
@@ -515,3 +521,45 @@ def _ancestors_if(f: Func, n: ast.AST) -> List[ast.If]:
             # `if isinstance(module, ModuleType): module = module.__name__` style conversions precede; only ifs that CONTAIN the add count
             out.append(cur)
     return out
+
+
+def attribute_refs_tracked(ctx: Ctx, rule: str) -> int:
+    """The visitor that collects the tracked variables of a function (`ExternalVarsVisitor`) has a handler for attribute references: a variable of an accepted
+    module read through the module (`import pkg.cfg as cfg` ... `cfg.THRESH`) is code of an accepted module like `from pkg.cfg import THRESH`."""
+    rep = ctx.report
+    c = ctx.prog.cls("dds.introspect.ExternalVarsVisitor")
+    if c is None:
+        raise AnchorError("dds.introspect.ExternalVarsVisitor not found")
+    handled = "visit_Attribute" in c.methods or any(isinstance(y, ast.Attribute) and y.attr == "Attribute" and isinstance(y.value, ast.Name) and y.value.id == "ast"
+                                                    for m_ in c.methods.values() for y in m_.own_nodes())
+    desc = "ExternalVarsVisitor tracks the variables of accepted modules that are read through an attribute (`cfg.THRESH`)"
+    if handled:
+        rep.ok(rule, c.qname, desc, c.module.relpath)
+    else:
+        rep.bad(rule, c.qname, desc, f"{c.module.relpath}:{c.node.lineno}", [f"{c.module.relpath}:{c.node.lineno}: the visitor handles {sorted(k for k in c.methods if k.startswith('visit_'))} only: an "
+                "ast.Attribute whose root is a module is visited as the bare name of the module, which is not a variable", "`import xacc.cfg as cfg` and `def f(): return cfg.THRESH` in an accepted "
+                "module: editing THRESH in the accepted module xacc.cfg changes no signature and the stale result is served"], "attr-variable",
+                what="a variable of an accepted module read through a module attribute (cfg.THRESH) is not tracked")
+    return 1
+
+
+def base_classes_tracked(ctx: Ctx, rule: str) -> int:
+    """The class inspectors look at the base classes of the class they analyse (`node.bases`): the methods a class inherits from a class of an accepted module
+    are code of an accepted module."""
+    rep = ctx.report
+    prog = ctx.prog
+    n = 0
+    for q in ("dds.introspect.InspectFunction.inspect_class",):
+        f = prog.func(q)
+        if f is None:
+            continue
+        n += 1
+        uses = [y for y in f.own_nodes() if isinstance(y, ast.Attribute) and y.attr in ("bases", "__bases__", "__mro__", "mro")]
+        desc = f"{f.qname.split('.')[-2]}.inspect_class takes the base classes into account"
+        if uses:
+            rep.ok(rule, f.qname, desc, f.loc(uses[0]))
+        else:
+            rep.bad(rule, f.qname, desc, f.loc(), [f"{f.loc()}: the class is analysed from the methods of its own body; `node.bases` is never read",
+                    "`class Child(Base)` with Base in another accepted module: editing Base.get changes no signature of a function that calls Child().get(): the stale result is served"],
+                    "base-classes", what="methods inherited from a base class of an accepted module are not tracked")
+    return n
